@@ -7,7 +7,7 @@ P = {
     "theorems": ["C04_execute_iff_spec", "C04_tried_in_configured_order", "C04_first_success_wins",
                  "C04_later_only_if_all_earlier_nocreds_or_optin",
                  "C04_rejected_without_optin_fails_even_if_later_accepts", "C04_rejected_without_optin_exact",
-                 "C04_no_credentials_iff_none_presented", "C04_kindless_never_no_credentials", "C04_fallback_only_if_opted_in",
+                 "C04_no_credentials_iff_none_presented",
                  "C04_typed_later_only_if", "C04_typed_first_success", "C04_typed_rejected_blocks", "C04_named_rejections_block",
                  "C04_flag_history_independent", "C04_step_flag_alone",
                  "C04_checked_predicate_implies_spec", "C04_model_passes_checked_predicate"],
@@ -22,7 +22,7 @@ P = {
     "rule": "case = one set of prototypes + 1-4 rules created on it by ONE rule factory in a random order (a step of a further rule "
             "mostly names a prototype an earlier step names and differs in the rule-level settings, often only in "
             "allow_fallback_on_error true/false/absent; a rule may name a prototype twice) + 1-4 requests, each handled by one of the "
-            "rules, all with one real in-memory cache. Rule: chain (1-8) of real authenticators, prototypes created by the real "
+            "rules, all with one real in-memory cache. Rule: chain (1-8; histogram rule0_len = length of rule 0, bucket '6+' = six or more) of real authenticators, prototypes created by the real "
             "mechanism factory (anonymous, unauthorized, basic_auth incl. a password with ':', jwt, "
             "oauth2_introspection, generic; endpoint answers / closes the connection / 5xx / not-JSON / no answer within the time limit / "
             "'switchable' = behaviour given per request; jwks_endpoint|introspection_endpoint or metadata_endpoint (fixed URL in each of "
@@ -67,33 +67,46 @@ P = {
                 "the driver wraps each real authenticator of the rule's composite in a recording delegate (the composite field of the rule "
                 "object is found by its type, not by its name) and points a stub repository of the real rule executor at the rule; the time "
                 "limit of outgoing calls is http.DefaultTransport.ResponseHeaderTimeout = 80 ms, set by the driver"],
-    "level_text": "Proof (kernel-checked, no axioms). Chain level, chains of any length: compositeSubjectCreator.Execute, transcribed literally, "
-                  "equals a declarative specification (answer = first authenticator that accepts or fails without no-credentials/opt-in; "
-                  "later ones consulted only if all earlier ones had no credentials or opted in; a non-opted-in failure on presented "
-                  "credentials ends authentication whatever follows) and calls the authenticators as a prefix of the configured list in "
-                  "order. Type level, over a shape space of requests x six authenticator types x endpoint behaviour (incl. time limit, "
-                  "metadata discovery) x assertions x token sources x cache lookup x (prototype flag, rule-level flag): 'no credentials' is "
-                  "answered exactly when no credentials of the type's kind are presented; IsFallbackOnErrorAllowed() only when the step "
-                  "opts in, and - over histories of rule creations from one set of prototypes - the objects (type, flag) of a rule's steps "
-                  "are those it gets when created alone, whatever was created before or after; the three sentences of the statement for "
-                  "real chains, and explicitly for wrong password / bad signature / "
-                  "inactive token / failed assertion. The executable predicate applied to the implementation's observation is proved to "
-                  "imply the specification, and the model is proved to pass it. Tied to the code by ~4000 (quick) / 60000 (thorough) rules "
-                  "x 1-3 requests through real authenticators, real cache and local endpoints, 60% through the complete decision / Envoy "
-                  "ext_authz services observing status class and forwarded subject.",
+    "level_text": "Proof (kernel-checked, no axioms) about a model. Chain level, chains of any length: a literal transcription of the loop of "
+                  "compositeSubjectCreator.Execute equals a declarative specification (answer = first authenticator that accepts or fails "
+                  "without no-credentials/opt-in; later ones consulted only if all earlier ones had no credentials or opted in; a "
+                  "non-opted-in failure on presented credentials ends authentication whatever follows) and calls the authenticators as a "
+                  "prefix of the configured list in order. Type level: a classification table written by reading the six authenticators and "
+                  "five extractors, over a shape space of requests (shapes declared by the driver, not derived from the bytes) x six "
+                  "authenticator types x endpoint behaviour (incl. time limit, metadata discovery) x assertions x token sources x cache "
+                  "lookup x (prototype flag, rule-level flag): 'no credentials' is answered exactly when no credentials of the type's kind "
+                  "are presented; and - over histories of rule creations from one set of prototypes, in the model of WithConfig "
+                  "(append-only: a step without config shares the prototype, one with config gets a new object, nothing is modified; that "
+                  "the six Go WithConfig behave so is sampled by the multi-rule cases) - the objects (type, flag) of a rule's steps are "
+                  "those it gets when created alone, whatever was created before or after; the three sentences of the statement for real "
+                  "chains, and explicitly for wrong password / bad signature / inactive token / failed assertion. The composite part of "
+                  "the executable predicate applied to the implementation's observation (prop_chain; the agreement of the service answer "
+                  "with the composite's, e2e_ok, is checked on every case but covered by no theorem) is proved to imply the specification, "
+                  "and the model is proved to pass it. Tied to the code by ~4000 (quick) / 60000 (thorough) sampled cases, each one set of "
+                  "prototypes with 1-4 rules and 1-4 requests, through real authenticators, real cache and local endpoints, 60% through the "
+                  "complete decision / Envoy ext_authz services observing status class and forwarded subject.",
     "level_note": "Chain level: full proof over abstract outcomes. Type level: proof over a finite shape space chosen by reading the six "
-                  "authenticators and five extractors; not covered: generic payload/forward_headers/forward_cookies, JWK certificate "
-                  "validation and trust store, allowed_algorithms and validity_leeway overrides, endpoint auth/retry, http_cache of metadata "
-                  "endpoints (switched off in the driver), concurrent requests, proxy mode. Correspondence compares classes only "
-                  "(no-credentials | other failure | accepted subject; consulted positions; flags; answer class; service answer) - which "
-                  "non-argument sentinel a failure carries is C12's subject and only recorded. The property predicate is one-directional "
-                  "(credentials presented and not accepted => not a no-credentials answer; flag true => opted in); a stricter heimdall shows "
-                  "as a correspondence difference, not as a property failure. Readings of 'usable credentials of its kind' that follow the "
-                  "code and that the property text allows: for jwt a bearer token that is not a parseable JWS (empty, opaque, alg none, "
-                  "unknown alg) is none; a lower-case scheme ('basic', 'bearer') is another scheme; a body parameter present twice is absent; "
-                  "of several Authorization field lines the joined value counts (so the scheme of the first line decides). Observed, not "
-                  "C04's: a basic_auth password containing ':' can never be presented; generic caches any 2xx body, also one that is not JSON.",
-    "assumptions": ["each case builds its own prototypes, rule and cache; requests of a case are sent one after the other (no concurrency)",
+                  "authenticators and five extractors, against `presented`, written by the same reader; not covered: generic "
+                  "payload/forward_headers/forward_cookies, JWK certificate validation and trust store, allowed_algorithms and "
+                  "validity_leeway overrides, endpoint auth/retry, http_cache of metadata endpoints (switched off in the driver), concurrent "
+                  "requests, proxy mode. 'Tried in the configured order' is a statement about the loop with a call log added by hand "
+                  "(`exec_log`); on the code side it is the observed positions 0,1,2,.. of the consulted mechanisms; that the rule factory "
+                  "keeps the configured order, and the service answer (status class / forwarded subject), are sampled only. Two lemmas kept "
+                  "in Properties/C04.v but not counted, `C04_kindless_never_no_credentials` and `C04_fallback_only_if_opted_in`, are "
+                  "immediate from the model's definitions; what they are worth is the sampled agreement of those definitions with the code "
+                  "(flags observed on the real objects). Correspondence compares classes only (no-credentials | other failure | accepted "
+                  "subject; consulted positions; flags; answer class; service answer) - which non-argument sentinel a failure carries is "
+                  "C12's subject and only recorded. The property predicate is one-directional (credentials presented and not accepted => not "
+                  "a no-credentials answer; flag true => opted in); a stricter heimdall shows as a correspondence difference (reported as "
+                  "`VIOLATION ... no-failing-input-found`, exit 1), not as a property failure with an input. Readings of 'usable credentials "
+                  "of its kind' that follow the code and that the property text allows: for jwt a bearer token that is not a parseable JWS "
+                  "(empty, opaque, alg none, unknown alg) is none, while a malformed Basic payload is 'presented' - so `[jwt, anonymous]` "
+                  "answers a garbage or alg-none bearer token as anonymous; a lower-case scheme ('basic', 'bearer') is another scheme; a "
+                  "body parameter present twice is absent; of several Authorization field lines the joined value counts (so the scheme of "
+                  "the first line decides). Observed, not C04's: a basic_auth password containing ':' can never be presented; generic caches "
+                  "any 2xx body, also one that is not JSON.",
+    "assumptions": ["each case builds its own prototypes, rules (1-4, created by one rule factory) and cache; requests of a case are sent one "
+                    "after the other (no concurrency)",
                     "a call that hits the 80 ms time limit although its endpoint is not a slow one (busy machine) makes the driver run the "
                     "case again (at most 3 times; counted in the histogram as rerun:unexpected-timeout)"],
 }
